@@ -2,11 +2,12 @@
 (* Walks a recorded trace of probe_session with the monitors of SessionMon.tla (one state per line). *)
 EXTENDS SessionMon
 
-VARIABLES l, ms, fails, nexec
+VARIABLES l, ms, fails, nexec, labels
 
 Ev == TraceLog[l]
 
-Init == l = 1 /\ ms = MsInit([prop |-> "none"]) /\ fails = <<>> /\ nexec = 0
+Bump(b, k) == IF k = "" THEN b ELSE IF k \in DOMAIN b THEN [b EXCEPT ![k] = @ + 1] ELSE (k :> 1) @@ b
+Init == l = 1 /\ ms = MsInit([prop |-> "none"]) /\ fails = <<>> /\ nexec = 0 /\ labels = [x \in {} |-> 0]
 Next ==
     \/ /\ l <= NLines
        /\ LET r == MonStep(ms, Ev) IN
@@ -14,9 +15,10 @@ Next ==
           /\ fails' = IF r.ok THEN fails
                       ELSE Append(fails, [line |-> l, exec |-> nexec, why |-> r.why, sig |-> Prop(ms) \o ":" \o r.sig])
        /\ nexec' = IF Ev.e = "Reset" THEN nexec + 1 ELSE nexec
+       /\ labels' = IF Ev.e \in {"Reset", "New"} THEN labels ELSE Bump(labels, StateLabel(ms, Ev))
        /\ l' = l + 1
     \/ /\ l = NLines + 1
-       /\ WriteVerdict(l - 1, fails, nexec)
+       /\ WriteVerdictL(l - 1, fails, nexec, labels)
        /\ l' = l + 1
-       /\ UNCHANGED <<ms, fails, nexec>>
+       /\ UNCHANGED <<ms, fails, nexec, labels>>
 =============================================================================
